@@ -424,6 +424,8 @@ struct seq_state {
     std::deque<std::unique_ptr<frame_rec>> frames;
     std::vector<ext_buf> ext;
     std::size_t fs[4] = {0, 0, 0, 0};
+    bool single = false;           // reusable / placement / buffer: one live frame at a time is the caller's contract;
+                                   // a request that breaks it (only shrinking produces one) is skipped on both sides
     std::size_t ex = 0;            // sizeof(T) of promise_extra_storage, 0 = none
     std::uint64_t next_tag = 1000;
 };
@@ -690,7 +692,12 @@ static void seq_loop(seq_state &st, Pol &pol, std::function<std::string(const st
             return;
         }
         std::string head;
-        if (w[0] == "alloc" && w.size() >= 3) {
+        bool occupied = false;
+        if (st.single)
+            for (auto &f : st.frames) occupied = occupied || f->live;
+        if (occupied && (w[0] == "alloc" || w[0] == "coro" || w[0] == "cdrop")) {
+            head = "skip";
+        } else if (w[0] == "alloc" && w.size() >= 3) {
             std::size_t k = std::strtoul(w[1].c_str(), nullptr, 10), sz = std::strtoul(w[2].c_str(), nullptr, 10);
             head = pol.has(k) ? op_alloc(st, pol.sel(k), sz, -1) : "skip";
         } else if ((w[0] == "coro" || w[0] == "cdrop") && w.size() >= 3) {
@@ -812,6 +819,9 @@ static void run_reusable_moves(seq_state &st) {
             S &self = *pol.h[pol.cur];
             *pol.h[pol.cur] = std::move(self);               // this == &other
         } else if (w[0] == "swapobj") {
+            // switching to the other object while a frame lives in this one's block is outside the caller's contract
+            for (auto &f : st.frames)
+                if (f->live) return "skip";
             pol.cur = o;
         } else {
             return "skip";
@@ -909,6 +919,7 @@ static void run_seq(const std::vector<std::string> &w) {
     st.ex = kv.count("ex") ? std::strtoul(kv["ex"].c_str(), nullptr, 10) : 0;
     std::size_t param = kv.count("p") ? std::strtoul(kv["p"].c_str(), nullptr, 10) : 0;
     const std::string &pol = w[3];
+    st.single = pol == "reusable" || pol == "placement" || pol == "buffer";
     if (pol == "default") run_maybe_extra<default_storage>(st);
     else if (pol == "reusable" && st.ex == 0) run_reusable_moves(st);
     else if (pol == "reusable") run_maybe_extra<reusable_storage>(st);
